@@ -58,9 +58,9 @@ pub enum ObsKind {
     ProbeEstablished { probe: usize, peer: PeerId },
     ProbeClosed { probe: usize, peer: PeerId },
     ProbeDialFailure { probe: usize, peer: PeerId },
-    ProbeSubstream { probe: usize, peer: PeerId, inbound: bool },
+    ProbeSubstream { probe: usize, peer: PeerId, inbound: bool, id: Option<usize> },
     ProbeOpenFailure { probe: usize, id: usize },
-    ProbeOpenCalled { probe: usize, peer: PeerId, id: Option<usize> },
+    ProbeOpenCalled { probe: usize, peer: PeerId, id: Option<usize>, err: Option<String> },
     ProbeExited { probe: usize },
 }
 
@@ -97,6 +97,8 @@ pub enum Cmd {
     DropRr,
     DropNotif,
     Ping(oneshot::Sender<()>),
+    /// block the node's only worker thread for this long: sockets stay open, nothing is read, written or answered
+    Freeze(Duration),
 }
 
 pub enum KadCmd {
@@ -143,6 +145,8 @@ pub struct NodeSetup {
     pub notif: Option<NotifSetup>,
     pub kad: Option<KadSetup>,
     pub ping: bool,
+    /// interval of the ping protocol (default 5 s)
+    pub ping_interval: Option<Duration>,
     pub identify: bool,
     pub connection_open_timeout: Option<Duration>,
     pub substream_open_timeout: Option<Duration>,
@@ -216,7 +220,7 @@ impl litep2p::protocol::UserProtocol for Probe {
                         TransportEvent::DialFailure { peer, .. } => ObsKind::ProbeDialFailure { probe: self.probe, peer },
                         TransportEvent::SubstreamOpened { peer, substream, direction, .. } => {
                             held.push(substream);
-                            ObsKind::ProbeSubstream { probe: self.probe, peer, inbound: matches!(direction, litep2p::protocol::Direction::Inbound) }
+                            ObsKind::ProbeSubstream { probe: self.probe, peer, inbound: matches!(direction, litep2p::protocol::Direction::Inbound), id: match direction { litep2p::protocol::Direction::Outbound(id) => Some(id.verif_raw()), _ => None } }
                         }
                         TransportEvent::SubstreamOpenFailure { substream, .. } => ObsKind::ProbeOpenFailure { probe: self.probe, id: substream.verif_raw() },
                     };
@@ -230,7 +234,7 @@ impl litep2p::protocol::UserProtocol for Probe {
                         }
                         Some(ProbeCmd::Open(peer)) => {
                             let r = service.open_substream(peer);
-                            push(&self.log, self.node, ObsKind::ProbeOpenCalled { probe: self.probe, peer, id: r.as_ref().ok().map(|i| i.verif_raw()) });
+                            push(&self.log, self.node, ObsKind::ProbeOpenCalled { probe: self.probe, peer, id: r.as_ref().ok().map(|i| i.verif_raw()), err: r.as_ref().err().map(|e| format!("{e:?}")) });
                         }
                         Some(ProbeCmd::DropHeld) => held.clear(),
                         Some(ProbeCmd::ForceClose(peer)) => {
@@ -409,8 +413,19 @@ async fn node_main(
         builder = builder.with_user_protocol(Box::new(p));
     }
     if setup.ping {
-        let (cfg, _events) = litep2p::protocol::libp2p::ping::Config::default();
+        let mut b = litep2p::protocol::libp2p::ping::ConfigBuilder::new();
+        if let Some(i) = setup.ping_interval {
+            b = b.with_ping_interval(i);
+        }
+        let (cfg, mut events) = b.build();
         builder = builder.with_libp2p_ping(cfg);
+        // the ping protocol awaits its event channel: keep it drained
+        tokio::spawn(async move { while events.next().await.is_some() {} });
+    }
+    if setup.identify {
+        let (cfg, mut events) = litep2p::protocol::libp2p::identify::Config::new("/vh/1".to_string(), Some("vh".to_string()));
+        builder = builder.with_libp2p_identify(cfg);
+        tokio::spawn(async move { while events.next().await.is_some() {} });
     }
     let mut litep2p = match Litep2p::new(builder.build()) {
         Ok(l) => l,
@@ -561,6 +576,7 @@ async fn node_main(
                     Cmd::NotifStall(d) => notif_stall_until = Some(Instant::now() + d),
                     Cmd::NotifThrottle(d) => notif_throttle = d,
                     Cmd::Ping(tx) => { let _ = tx.send(()); }
+                    Cmd::Freeze(d) => std::thread::sleep(d),
                     Cmd::Kad(k) => {
                         if let Some(h) = kad.as_mut() {
                             match k {
